@@ -361,7 +361,9 @@ func (x *producerController) handleRegisterConsumer(ctx *ReceiveContext, registe
 		ctx.Watch(ctx.Sender())
 		x.consumerController = ctx.Sender()
 		x.registrationNonce = register.Nonce()
-		x.demandUpTo = x.currentSeq
+		// revoke the dead generation's grants without ever granting more: a
+		// chunked message may already have stored sequences above the demand
+		x.demandUpTo = min(x.demandUpTo, x.currentSeq)
 	}
 
 	ack, err := commands.NewRegistrationAck(x.sessionID, x.confirmedSeq+1, x.registrationNonce)
@@ -859,7 +861,7 @@ func (x *producerController) handleTerminated(ctx *ReceiveContext, msg *Terminat
 	if x.consumerController != nil && msg.ActorPath().Equals(x.consumerController.Path()) {
 		x.consumerController = nil
 		x.registrationNonce = types.EmptyString
-		x.demandUpTo = x.currentSeq
+		x.demandUpTo = min(x.demandUpTo, x.currentSeq)
 	}
 }
 
